@@ -167,4 +167,19 @@ def load (bytes : List Nat) : Option Obj :=
   (fromBytesNormal bytes).map (fun x =>
     { hdr := x.hdr, hcrc := x.hcrc, comment := x.comment, tracks := x.tracks.map (fun t => { trk := t, headPos := 0 }) })
 
+/-- `put_metadata` of the notes in the repaired tree (`fix`): notes longer than the 16-bit length field can say are refused -/
+def putNotesCL (fix : Bool) (stamp : List Nat) (c : Option Comment) (v : List Nat) : Option (Option Comment) :=
+  if fix ∧ (normalizeNotes v).length > 65535 then none else putNotesC stamp c v
+
+def putNotesImgL (fix : Bool) (stamp : List Nat) (x : Image) (v : List Nat) : Option Image :=
+  (putNotesCL fix stamp x.comment v).map (fun c => { x with comment := c })
+
+def Obj.putNotesL (fix : Bool) (stamp : List Nat) (o : Obj) (v : List Nat) : Option Obj :=
+  (putNotesCL fix stamp o.comment v).map (fun c => { o with comment := c })
+
+/-- `Td0::from_bytes` of a foreign stream (`lossy` = `String::from_utf8_lossy` on the comment bytes) -/
+def loadD (lossy : List Nat → List Nat) (fix : Bool) (bytes : List Nat) : Option Obj :=
+  (fromBytesNormalD lossy fix bytes).map (fun x =>
+    { hdr := x.hdr, hcrc := x.hcrc, comment := x.comment, tracks := x.tracks.map (fun t => { trk := t, headPos := 0 }) })
+
 end A2Verif.Model.C08Td0
